@@ -276,7 +276,7 @@ func (fr *Frame) edgeReach(ps *State, p, b *ssa.BasicBlock) Term {
 		}
 	}
 	r := smtAnd(ps.reach, cond)
-	return vc.define(fr.prefix+"edge", "Bool", r)
+	return vc.define(fmt.Sprintf("%sedge_b%d_b%d", fr.prefix, p.Index, b.Index), "Bool", r)
 }
 
 func (vc *VC) merge(edges []*State) *State {
@@ -432,7 +432,7 @@ func (fr *Frame) enterLoop(li *loopInfo, in *State, edges []*State, preds []*ssa
 			if name == "CLK" {
 				continue
 			}
-			hs.heap[name] = vc.freshConst(name, vc.heapSort[name])
+			hs.heap[name] = vc.havocOne(old, name)
 			if strings.HasPrefix(name, "Gh_") {
 				// ghost counters only grow
 				vc.assume("(>= " + hs.heap[name] + " " + old.heap[name] + ")")
@@ -648,6 +648,11 @@ func (vc *VC) addInferred(callee *ssa.Function, mods map[string]bool) bool {
 		return true
 	}
 	for v := range es.vars {
+		if _, inScope := vc.heapSort[v]; inScope {
+			mods[v] = true
+		}
+	}
+	for v := range es.fresh {
 		if _, inScope := vc.heapSort[v]; inScope {
 			mods[v] = true
 		}
